@@ -12,10 +12,10 @@
    Operations: <<"add",k,force>>  <<"push","",0>>  <<"pop","",0>> (rotating)  <<"rt",channel,0>> (export + load: identity) *)
 EXTENDS Integers, Sequences, FiniteSets, TLC, Json
 
-CONSTANTS Keys, M, K, Tables, Est, QMax, Rotating, Channels, MaxDepth, MaxSubs
+CONSTANTS Keys, M, K, Tables, Est, QMax, Rotating, Channels, MaxDepth, MaxSubs, MaxReloads
 
-VARIABLES pos, subs, total, calls, eff, manual, ins, man, hist, last
-vars == <<pos, subs, total, calls, eff, manual, ins, man, hist, last>>
+VARIABLES pos, subs, total, calls, eff, manual, ins, man, reloads, hist, last
+vars == <<pos, subs, total, calls, eff, manual, ins, man, reloads, hist, last>>
 
 PosSet(k) == {pos[k][i] % M : i \in 1..K}
 NewSub == [bits |-> {}, n |-> 0]
@@ -40,7 +40,7 @@ Ops == {<<"add", k, f>> : k \in Keys, f \in {0, 1}} \cup {<<"push", "", 0>>}
 
 Init == /\ pos \in Tables
         /\ subs = <<NewSub>> /\ total = 0 /\ calls = 0 /\ eff = 0 /\ manual = FALSE
-        /\ ins = [k \in Keys |-> 0] /\ man = [k \in Keys |-> FALSE]
+        /\ ins = [k \in Keys |-> 0] /\ man = [k \in Keys |-> FALSE] /\ reloads = 0
         /\ hist = <<>> /\ last = [o |-> <<"init", "", 0>>, err |-> FALSE, was |-> FALSE]
 
 Do(o) ==
@@ -65,14 +65,16 @@ Do(o) ==
                  /\ UNCHANGED <<total, calls, eff, ins>>
                  /\ last' = [o |-> o, err |-> FALSE, was |-> FALSE]
        [] o[1] = "rt" ->
+            /\ reloads < MaxReloads
             /\ UNCHANGED <<subs, total, calls, eff, manual, ins, man>>
             /\ last' = [o |-> o, err |-> FALSE, was |-> FALSE]
   /\ hist' = Append(hist, o)
+  /\ reloads' = IF o[1] = "rt" THEN reloads + 1 ELSE reloads      \* part of the state: histories continue on the restored filter
   /\ UNCHANGED pos
 
 Next == \E o \in Ops : Do(o)
 Spec == Init /\ [][Next]_vars
-View == <<pos, subs, total, calls, eff, manual, ins, man>>
+View == <<pos, subs, total, calls, eff, manual, ins, man, reloads>>
 Bound == Len(hist) <= MaxDepth /\ Len(subs) <= MaxSubs
 
 -----------------------------------------------------------------------------
